@@ -742,6 +742,11 @@ impl Property for C09 {
                 at += 1 + rng.below(3);
             }
         }
+        // Environment fault (one run in 25): the working directory cannot be determined.
+        if rng.chance(1, 25) {
+            env.no_working_directory = true;
+            damage.push("cwd unknown (VM.working_directory = None)".to_string());
+        }
         // Avoid rules for listed findings (exactly the documented trigger, nothing else).
         for id in &self.avoid {
             apply_avoid_rule(id, &mut out);
@@ -855,6 +860,7 @@ impl Property for C09 {
                 "terminal" => "terminal_exhausted_or_failing",
                 "write" => "disk_write_fails",
                 "replace" => "file_replaced_between_lines",
+                "cwd" => "working_directory_unknown",
                 _ => "other",
             }));
         }
